@@ -458,6 +458,29 @@ def auth_script(r, idx, fate_vec=None):
     return {"cfg": cfg, "steps": steps, "tag": {"family": "auth-" + fam, "idx": idx}}
 
 
+def auth_resume_script(r, idx):
+    """A resuming client (session ticket, remembered transport parameters - among them the reset token of
+    a connection ID of the EARLIER connection) receives, while its new handshake is under way, datagrams
+    that end in that old token or in a damaged copy: nothing but the token issued for the connection
+    ID in use may end the connection."""
+    cfg = base_cfg(r, server={"idle_ms": 20000}, client={"idle_ms": 20000})
+    cfg["ticket"] = True
+    cfg["accept_early"] = r.random() < 0.6
+    cfg["new_tokens"] = 0
+    cfg["latency_us"] = r.choice([5000, 20000])
+    steps = [{"do": "connect", "n": 1}]
+    if r.random() < 0.5:
+        steps.append({"do": "op", "n": 1, "c": 0, "op": {"op": "open", "dir": 0}})
+        steps.append({"do": "op", "n": 1, "c": 0, "op": {"op": "write", "id": 0, "len": 300, "key": _skey(False, 0), "off": "auto"}})
+    for _ in range(r.choice([1, 2, 3])):
+        steps.append({"do": "run", "us": r.choice([0, 1000, 6000, 15000, 30000, 80000])})
+        steps.append({"do": "reset_like", "to": 1, "c": 0, "token": r.choice(["ticket", "ticket", "flip"]), "len": r.choice([60, 100, 1200])})
+    steps.append(workload(r))
+    steps.append({"do": "run_until", "what": "apps", "max_us": 20000000})
+    steps.append({"do": "run", "us": 1000000})
+    return {"cfg": cfg, "steps": steps, "tag": {"family": "auth-resume", "idx": idx}}
+
+
 # ------------------------------------------------------------------------------------------------
 # C05
 
